@@ -23,6 +23,8 @@ func runC05(c *core.Ctx) {
 	c.RuleDoc("R05.1", "typed errors only (no raw error leaves an FS-level entry point)")
 	c.RuleDoc("R05.2", "path fields in the caller's namespace; inner/OS-namespace errors translated with the right pair")
 	c.RuleDoc("R05.3", "mount translator is expansive")
+	c.RuleDoc("R05.10", "a two-name helper translates its delegate's error with both of the caller's names")
+	c.RuleDoc("R05.11", "the mount error translator compares the failing path only within its own namespace")
 	c.RuleDoc("R05.9", "the error of a recursive call on other names is wrapped again under the caller's names")
 	c.RuleDoc("R05.8", "outside MkdirAll/RemoveAll no error is built with the parent of a name as its path")
 	c.RuleDoc("R05.7", "a missing name below a regular file is told apart from a missing name (ErrNotDir vs ErrNotExist)")
@@ -59,6 +61,8 @@ func runC05(c *core.Ctx) {
 		r05SaveNamesRecord(c, p)
 		r05NoParentNamed(c, p)
 		r05RecursionRewraps(c, p)
+		r05TwoNameTranslation(c, p)
+		r05NamespaceTyped(c, p)
 		if p.Target == load.Linux {
 			r05NotDirThroughFile(c, p, "R05.7")
 		}
@@ -70,6 +74,8 @@ func runC05(c *core.Ctx) {
 	c.Floor("R05.5", 1)
 	c.Floor("R05.6", 3)
 	c.Floor("R05.9", 2)
+	c.Floor("R05.10", 1)
+	c.Floor("R05.11", 2)
 }
 
 func nameParamIdx(fn *ssa.Function) []int {
@@ -865,4 +871,128 @@ func r05RecursionRewraps(c *core.Ctx, p *load.Program) {
 	if n == 0 {
 		c.Hard("anchor: no recursive file-system operation on derived names found")
 	}
+}
+
+// r05TwoNameTranslation (R05.10): a helper with two name parameters (Rename, Symlink) that delegates to a file system
+// resolved with Mount() hands the delegate's error to a translator that receives BOTH of the caller's names: a
+// single-name translator (strip the prefix of the old name's mapping) leaves LinkError.New in the inner namespace
+// whenever the two names are not mapped alike (an invalid old name next to a valid new one).
+func r05TwoNameTranslation(c *core.Ctx, p *load.Program) {
+	n := 0
+	for _, fn := range helperFuncs(p) {
+		var names []*ssa.Parameter
+		for _, prm := range fn.Params[1:] {
+			if isStr(prm.Type()) {
+				names = append(names, prm)
+			}
+		}
+		if len(names) != 2 {
+			continue
+		}
+		ord := ordinals{}
+		ssax.Instrs(fn, func(ins ssa.Instruction) {
+			cl, ok := ins.(*ssa.Call)
+			if !ok || ssax.StaticCallee(cl) != fn {
+				return
+			}
+			ev := ssax.ErrorValueOf(cl)
+			if ev == nil || ev.Referrers() == nil {
+				return
+			}
+			n++
+			key := fname(fn) + "|" + ord.next("delegate-error-translated-with-both-names")
+			good := false
+			for _, r := range *ev.Referrers() {
+				tc, ok := r.(*ssa.Call)
+				if !ok {
+					continue
+				}
+				has := map[*ssa.Parameter]bool{}
+				for _, a := range tc.Call.Args {
+					for _, np := range names {
+						if a == ssa.Value(np) {
+							has[np] = true
+						}
+					}
+				}
+				if len(has) == 2 {
+					good = true
+				}
+			}
+			c.Check(good, "R05.10", key, p.Pos(cl.Pos()), "the delegate's error is translated with both of the caller's names",
+				fmt.Sprintf("%s translates the error of its delegated call with one of its two names only: the other path field of the *LinkError keeps the inner file system's namespace whenever the two names are not mapped alike (Rename(view, \"../file\", \"moved\") reports New=\"base/moved\")", fname(fn)))
+		})
+	}
+	if n == 0 {
+		c.Hard("anchor: two-name helpers delegating through Mount")
+	}
+}
+
+// r05NamespaceTyped (R05.11): inside the mount error translator (the function stripErrPathPrefix maps path fields
+// with) the failing path and the mount sub-path are names of the INNER file system, the caller's name is not: the
+// failing path is compared (==, HasPrefix, HasSuffix) only with values of its own namespace. A comparison of the inner
+// path with the caller's name fires when a name happens to repeat the elements of the view's directory
+// (Stat(Sub(fs, "vendor"), "vendor") would report "vendor/vendor").
+func r05NamespaceTyped(c *core.Ctx, p *load.Program) {
+	fn := p.Func("", "mountedPathToCaller")
+	if fn == nil || len(fn.Params) != 3 {
+		c.Hard("anchor: mountedPathToCaller(p, name, mountSubPath)")
+		return
+	}
+	inner, caller := fn.Params[0], fn.Params[1]
+	derives := func(v ssa.Value, root *ssa.Parameter) bool {
+		return originOrConcat(v, root, 0, map[ssa.Value]bool{})
+	}
+	n := 0
+	ord := ordinals{}
+	ssax.Instrs(fn, func(ins ssa.Instruction) {
+		var x, y ssa.Value
+		switch v := ins.(type) {
+		case *ssa.BinOp:
+			if (v.Op == token.EQL || v.Op == token.NEQ) && isStr(v.X.Type()) {
+				x, y = v.X, v.Y
+			}
+		case *ssa.Call:
+			if ssax.CalleeIs(v, "strings", "HasPrefix") || ssax.CalleeIs(v, "strings", "HasSuffix") {
+				x, y = v.Call.Args[0], v.Call.Args[1]
+			}
+		}
+		if x == nil {
+			return
+		}
+		if !(derives(x, inner) || derives(y, inner)) {
+			return
+		}
+		n++
+		key := fname(fn) + "|" + ord.next("inner-path-compared-within-its-namespace")
+		mixed := (derives(x, inner) && derives(y, caller)) || (derives(y, inner) && derives(x, caller))
+		c.Check(!mixed, "R05.11", key, p.Pos(ins.Pos()), "the failing path is compared with inner-namespace values only",
+			fmt.Sprintf("%s compares the failing path (a name of the inner file system) with the caller's name: the two are in different namespaces, and the test fires whenever a name repeats the elements of the view's directory — Stat(Sub(fs, \"vendor\"), \"vendor\") on a missing file would report \"vendor/vendor\", the inner path, as if it were already the caller's", fname(fn)))
+	})
+	if n == 0 {
+		c.Hard("anchor: comparisons of the failing path in mountedPathToCaller")
+	}
+}
+
+func originOrConcat(v ssa.Value, root *ssa.Parameter, d int, seen map[ssa.Value]bool) bool {
+	if v == nil || d > 8 || seen[v] {
+		return false
+	}
+	seen[v] = true
+	if v == ssa.Value(root) {
+		return true
+	}
+	switch x := v.(type) {
+	case *ssa.BinOp:
+		if x.Op == token.ADD {
+			return originOrConcat(x.X, root, d+1, seen) || originOrConcat(x.Y, root, d+1, seen)
+		}
+	case *ssa.Phi:
+		for _, e := range x.Edges {
+			if originOrConcat(e, root, d+1, seen) {
+				return true
+			}
+		}
+	}
+	return false
 }
